@@ -1,4 +1,4 @@
-//@@ unit props=C16,C17,C07,C01,C06,C14,C10
+//@@ unit props=C16,C17,C07,C01,C06,C14,C10,C11
 // Unit xlsxwb: workbook-level plumbing of the xlsx reader (src/xlsx/mod.rs), verbatim text, under contract against a GHOST MODEL of
 // quick-xml and zip (assumptions A-xml / A-zip of DESIGN.md section 5).
 //
@@ -856,7 +856,7 @@ pub open spec fn first_named(sh: Seq<(String, String)>, name: Seq<char>, i: int)
 }
 
 //@@ impl src/xlsx/mod.rs Xlsx nth=1
-//@@ fn src/xlsx/mod.rs Xlsx::worksheet_cells_reader props=C07,C16,C01,C10 entry ret=r deref_pat
+//@@ fn src/xlsx/mod.rs Xlsx::worksheet_cells_reader props=C07,C16,C01,C10,C11 entry ret=r deref_pat
 //@@ sig
     ensures
         //# C07.unknown_sheet_is_error
@@ -879,7 +879,7 @@ pub open spec fn first_named(sh: Seq<(String, String)>, name: Seq<char>, i: int)
             && (r->Ok_0).dims() == declared_dims((r->Ok_0).xml_events()),
         //# C07,C01,C10.cells_reader_strings_formats
         r is Ok ==> (r->Ok_0).strings() == old(self).g_strings()@ && (r->Ok_0).formats() == old(self).g_formats()@,
-        //# C16,C10.date_system_flag_reaches_cells
+        //# C16,C10,C11.date_system_flag_reaches_cells
         r is Ok ==> (r->Ok_0).is_1904() == old(self).g_1904(),
         //# C07.cells_reader_missing_part_is_error
         (forall|i: int| 0 <= i < old(self).g_sheets()@.len() && (#[trigger] old(self).g_sheets()@[i]).0@ == name@
@@ -1484,7 +1484,7 @@ proof fn lemma_date1904_bytes()
 //@@ impl src/xlsx/mod.rs Xlsx
 #[verifier::loop_isolation(false)]
 #[verifier::allow_complex_invariants]
-//@@ fn src/xlsx/mod.rs Xlsx::read_workbook props=C16,C01,C10,C07 entry ret=r
+//@@ fn src/xlsx/mod.rs Xlsx::read_workbook props=C16,C01,C10,C07,C11 entry ret=r
 //@@ sig
     ensures
         //# C07.read_workbook_frame
@@ -1512,7 +1512,7 @@ proof fn lemma_date1904_bytes()
            has_part(content(old(self).zip), wb_path()) && evs is Some && wb.ok
              && main_ns_one_binding(evs->Some_0) && r is Ok ==>
                names_are(final(self).metadata.names@, wb.names) }),
-        //# C16,C10.date1904_from_workbookPr
+        //# C16,C10,C11.date1904_from_workbookPr
         ({ let evs = part_events(content(old(self).zip), wb_path()); let wb = wb_part(evs->Some_0, relationships@);
            has_part(content(old(self).zip), wb_path()) && evs is Some && wb.ok
              && main_ns_one_binding(evs->Some_0) && r is Ok ==>
@@ -1566,7 +1566,7 @@ verif_str_split_nth(&path, \g<1>, \g<2>)
                 good ==> ext_meta(ms0, self.metadata.sheets@, st.sheets),
                 //# C16.defined_names_in_order_so_far
                 good ==> names_are(defined_names@, st.names),
-                //# C16,C10.date1904_so_far
+                //# C16,C10,C11.date1904_so_far
                 good ==> self.is_1904 == pr_or(st.pr, d0),
                 //# C16,C01,C10.root_element_name_kept
                 good ==> (if st.root { 0 <= ri < xml.pos() && root@ == ev[ri].name && qn_prefix(root@) == ev[ri].prefix && root@.len() > 0 }
@@ -1673,10 +1673,10 @@ verif_str_split_nth(&path, \g<1>, \g<2>)
                         if good {
                             assert(st0.root);
                             assert(ev[pos].wf());
-                            //# C16,C10.workbookPr_carries_the_root_prefix
+                            //# C16,C10,C11.workbookPr_carries_the_root_prefix
                             assert(ev[pos].prefix == ev[ri].prefix);
                             assert(is_main(ev[pos]));
-                            //# C16,C10.date1904_only_from_the_workbooks_workbookPr
+                            //# C16,C10,C11.date1904_only_from_the_workbooks_workbookPr
                             assert(ev[pos].kind is Start && is_main(ev[pos]) && ev[pos].local == n_workbookpr()
                                 && st0.root && st0.skip == 0 && st0.ctx is Top && st0.pr is None);
                             assert(date1904_of(ev[pos]) is Some);
